@@ -220,6 +220,8 @@ def replay(mod, pid, path, seed):
     case = normalise_case(sp, kernel.unjson(rec["case"]))
     R = kernel.Recorder(sp.name, seed)
     signal.signal(signal.SIGALRM, kernel._alarm)
+    for k, prior in enumerate(rec.get("prior_cases") or []):  # history-dependent violation: run the earlier cases first
+        kernel.run_case(sp, k, normalise_case(sp, kernel.unjson(prior)), R)
     kernel.run_case(sp, 0, case, R)
     print(f"replay {pid} space={sp.name} case={json.dumps(rec['case'])[:800]}")
     if not R.viol:
